@@ -321,3 +321,39 @@ def canary():
         init = record[0]["init"]
         run.prove("init.overlaps.stale", same(run, init.get("overlaps"), U("stale_overlaps")), kind="canary")
     return run_scenario("C12.canary", sc)
+
+
+def free_block():
+    """C05.fp.energy: _block_scan_free = n_prop_steps free-projection steps, then block_energy = sum(E_L * overlaps) / sum(overlaps),
+    block_weight = sum(overlaps) with the overlaps of the un-normalised walkers"""
+    def sc(run):
+        record = []
+        _prepare(run, record)
+        steps = []
+
+        def c_step(it, selfobj, *args, **kw):
+            steps.append(args)
+            return ({k: U(f"step.carry[{k}]") for k in args[0]} if isinstance(args[0], dict) else U("step.carry"), U("fields_out"))
+        run.contracts["sampling.sampler._step_scan_free"] = c_step
+        LM._MODELS["jax.random.split"] = lambda it, a, kw: (Opaque("split0", [a[0]]), Opaque("split1", [a[0]]))
+        smp = run.construct("sampling", "sampler")
+        for f in ("n_prop_steps", "n_ene_blocks", "n_sr_blocks", "n_blocks"):
+            smp.fields[f] = U("self." + f)
+        prop, trial, wd = U("prop"), U("trial"), U("wave_data")
+        hd = {"chol": U("chol"), "h0": U("h0")}
+        pd0 = dict(_pd(run), norms=U("norms0"))
+        out, (tr, be, bw) = run.method(smp, "_block_scan_free", dict(pd0), U("x"), hd, prop, trial, wd)
+        run.prove("one_scan", len(record) == 1 and len(steps) == 1, note="one scan over _step_scan_free")
+        if len(record) != 1 or len(steps) != 1:
+            return
+        rec = record[0]
+        ok_f = isinstance(rec["xs"], Opaque) and rec["xs"].tag == "lib:jax.random.normal" and same(run, rec["xs"].deps[0], Opaque("split1", [pd0["key"]]))
+        run.prove("steps.fields", ok_f, note="fields ~ N(0,1) from the sub-key")
+        after = {k: U(f"scan0.carry[{k}]") for k in pd0}
+        e = call(trial, "calc_energy", after["walkers"], hd, wd)
+        ov = after["overlaps"]
+        bw_want = lib("np.sum", ov)
+        be_want = binop("Div", lib("np.sum", binop("Mult", e, ov)), bw_want)
+        run.prove("energy", same(run, be, be_want), note="block_energy = sum(E_L * overlaps) / sum(overlaps)")
+        run.prove("weight", same(run, bw, bw_want), note="block_weight = sum(overlaps)")
+    return run_scenario("C05.fp.energy", sc, functions=["sampling.sampler._block_scan_free"], no_exception="noexc")
